@@ -253,6 +253,7 @@ impl<'a> Sess<'a> {
         t.line(&format!("new {} {} {}", id, esc(layout), opts.bits_str()));
         match Imp::new(&cfg) {
             Some(mut imp) => {
+                imp.describe(&format!("layout={} opts={} xdg={}", layout, opts.bits_str(), xdg.display()));
                 let on = imp.ongoing();
                 t.line(&format!("> N {}", if on { 1 } else { 0 }));
                 Some(Sess { id: id.into(), imp, layout: layout.into(), opts, xdg: xdg.to_path_buf(), data, last: Obs::Unit, events: vec![], follow_sel: true })
@@ -320,6 +321,7 @@ impl<'a> Sess<'a> {
         emit_fs(t, &self.xdg);
         let cfg = mk_config(layout, &opts, &self.xdg);
         let o = self.imp.update(&cfg);
+        self.imp.describe(&format!("(continued after update) layout={} opts={} xdg={}", layout, opts.bits_str(), self.xdg.display()));
         let on = if o == Obs::Panic { false } else { self.imp.ongoing() };
         t.line(&format!("update {} {} {}", self.id, esc(layout), opts.bits_str()));
         t.line(&format!("> {}", render_obs(&o, on)));
